@@ -22,6 +22,17 @@ fn fmt_stub(_args: std::fmt::Arguments<'_>) -> String {
     String::new()
 }
 
+/// `Duration::from_nanos` divides a symbolic u64 by 10^9, which CBMC's bit-blasted divider does not get through (probed in
+/// round 0). Equivalent replacement: below one second (always the case for the <= 10 ms slices built here) no division is
+/// needed; the general case keeps the division (its branch is infeasible in this harness, so the solver never has to solve it).
+fn from_nanos_no_div(nanos: u64) -> Duration {
+    if nanos < 1_000_000_000 {
+        Duration::new(0, nanos as u32)
+    } else {
+        Duration::new(nanos / 1_000_000_000, (nanos % 1_000_000_000) as u32)
+    }
+}
+
 const MAX_POLLS: u32 = 3;
 
 fn poll_hook(timeout: Option<Duration>) -> i32 {
@@ -60,17 +71,16 @@ fn poll_hook(timeout: Option<Duration>) -> i32 {
     }
 }
 
-fn new_loop() -> EventLoop<'static> {
-    EventLoop::new(
-        String::from("l"),
-        0,
-        crate::common::constants::DEFAULT_STACK_SIZE,
-        0,
-        1,
-        0,
-        Arc::new((Mutex::new(AtomicUsize::new(0)), Condvar::new())),
-    )
-    .expect("event loop")
+/// An event loop of which only the selector is initialised. `timed_wait_just` / `wait_just` of a plain thread (no current
+/// coroutine) touch nothing else; building the whole loop (pool, scheduler, queues, beans) made the query exceed 20 GB
+/// without adding anything the property depends on. A change that makes these functions use another field reads
+/// zeroed memory here and fails loudly (exit 2 after the native replay), it cannot pass silently.
+fn new_loop() -> std::mem::ManuallyDrop<EventLoop<'static>> {
+    let mut el: std::mem::MaybeUninit<EventLoop<'static>> = std::mem::MaybeUninit::zeroed();
+    unsafe {
+        std::ptr::write(&raw mut (*el.as_mut_ptr()).selector, Poller::new().expect("poller"));
+        std::mem::ManuallyDrop::new(el.assume_init())
+    }
 }
 
 /// A plain thread waits for `d`: for EVERY d (seconds and nanoseconds symbolic) and every clock reading, whatever
@@ -79,6 +89,7 @@ fn new_loop() -> EventLoop<'static> {
 #[kani::unwind(5)]
 #[kani::stub(crate::common::now, vnow)]
 #[kani::stub(alloc::fmt::format, fmt_stub)]
+#[kani::stub(std::time::Duration::from_nanos, from_nanos_no_div)]
 fn c14_timed_wait_just_not_early() {
     let el = new_loop();
     let secs: u64 = kani::any();
@@ -108,5 +119,4 @@ fn c14_timed_wait_just_not_early() {
         kani::cover!(r.is_err(), "hard OS error");
         mio::VERIF_POLL_HOOK = None;
     }
-    core::mem::forget(el);
 }
